@@ -44,6 +44,13 @@ def step (st : KVS V) (line : String) : KVS V × Option String :=
     | some key =>
       let o := get st key
       (st, if showOut o = r then none else some s!"Get: model {showOut o} impl {r}")
+  | ["klockorder", ks, "=>", r] =>
+    -- the order in which MultiPut takes its locks (kvs.lockOrder on the keys of the pairs)
+    let parse (x : String) : Option (List Nat) := if x = "-" then some [] else (x.splitOn ",").mapM (·.toNat?)
+    match parse ks, parse r with
+    | some keys, some got =>
+      (st, if lockOrder keys = got then none else some s!"lockOrder: model {lockOrder keys} impl {got}")
+    | _, _ => (st, some "bad klockorder line")
   | "kround" :: rest =>
     -- kround <s0> | <put> | <put> ... => <final>
     match (" ".intercalate rest).splitOn " => " with
